@@ -229,6 +229,16 @@ def handle : List String → String
   | _ => "bad-op"
 
 /-- counter-example lines replayed on the implementation on every run (see Witness.lean) -/
-def witnessLines : List String := []
+def witnessLines : List String := [
+  -- Witness.deterministic_full_fails (DESIGN F16): a.test on :8443 and on :9443
+  "C11 cfg 64 0 0 -:00000:10;612e74657374:11000:01 7330/0.-.8443.8443/00000/-/-/h1;7331/0.-.9443.9443/00000/-/-/h1 - 0",
+  -- Witness.receiver_depends_on_order: two servers on the HTTP port
+  "C11 cfg 64 0 0 -:00000:10;612e74657374:11000:01 7330/0.-.443.443/00000/-/-/h1;7331/0.31302e312e312e31.80.80/00000/-/-/c;7332/0.3132372e302e302e31.80.80/00000/-/-/c - 0",
+  -- Witness.effective_depends_on_route_order: one server on :8443 and :443
+  "C11 cfg 64 0 0 -:00000:10;612e74657374:11000:01 7330/0.-.8443.8443,0.-.443.443/00000/-/-/h1 - 0",
+  -- Witness.redirect_port_full_fails: catch-all redirect of a name-less TLS server shadows a.test
+  "C11 cfg 64 0 0 -:00000:10;612e74657374:11000:01 7330/0.-.8443.8443/00000/-/-/h1;7331/0.-.9443.9443/00002/-/-/- - 0",
+  -- Witness.redirect_exists_full_fails: no managed certificate names, existing HTTP server
+  "C11 cfg 64 0 0 -:00000:10;612e74657374:11000:01 7330/0.-.8443.8443/00100/-/-/h1;7331/0.-.80.80/00000/-/-/c - 0"]
 
 end CaddyModel.C11
